@@ -32,6 +32,11 @@ def set (r : Rec) (f : String) (v : Bytes) : Rec := (f, v) :: r
 def be32 (n : Nat) : Bytes :=
   [UInt8.ofNat (n / 16777216), UInt8.ofNat (n / 65536), UInt8.ofNat (n / 256), UInt8.ofNat n]
 
+/-- `binary.Write(w, binary.BigEndian, uint64(n))` (n taken mod 2^64). -/
+def be64 (n : Nat) : Bytes :=
+  [UInt8.ofNat (n / 72057594037927936), UInt8.ofNat (n / 281474976710656), UInt8.ofNat (n / 1099511627776),
+   UInt8.ofNat (n / 4294967296), UInt8.ofNat (n / 16777216), UInt8.ofNat (n / 65536), UInt8.ofNat (n / 256), UInt8.ofNat n]
+
 def beNat (b : Bytes) : Nat := b.foldl (fun a x => a * 256 + x.toNat) 0
 
 /-- One field as `writeBytes` (width 0) or as raw fixed-width bytes writes it. -/
@@ -158,6 +163,16 @@ are parameters; the round-trip theorem assumes `dec c (enc c b) = b`. -/
 structure Leaf where
   enc : String → Bytes → Bytes
   dec : String → Bytes → Bytes
+
+/-- The leaf codecs as the code uses them for an entry whose `time.Time` carries a Location `offNs`
+nanoseconds east of UTC (mod 2^64: a western zone is its two's complement). A timestamp leaf is
+identified with the epoch-nanosecond value it denotes when parsed: the layout ends in a literal "Z",
+so the parser takes the written wall-clock reading as UTC. `utc` = the writer converts with `.UTC()`
+first (then the reading is the instant itself); otherwise the reading of the Time's own Location is
+written, i.e. the instant shifted by the offset. All other leaves round-trip by assumption. -/
+def zoneLeaf (utc : Bool) (offNs : Nat) : Leaf where
+  enc := fun c b => if c == "time" && !utc then be64 (beNat b + offNs) else b
+  dec := fun _ b => b
 
 /-- Go's `omitempty`: a number is omitted when it is 0, a string when it is "". -/
 def omitted (codec : String) (b : Bytes) : Bool :=
